@@ -17,7 +17,7 @@ import (
 func init() {
 	core.RegisterMeta("C09", core.Meta{
 		Rule: "certificates written by the harness' own DER writer (SAN with DNS names / only IP / empty / absent; CN set or absent) and hosts; " +
-			"(a) every (pattern, host) pair of strings up to the tier's length over {a A . *} (thorough: also {a A b . *}) in four certificate modes, enumerated completely; " +
+			"(a) every (pattern, host) pair of strings up to the tier's length over {a A . *} (thorough: also {a A b . *}) in six certificate modes (SAN with the DNS name; CN only; SAN with only an IP / an unrelated DNS name / empty / only an e-mail, each with CN = pattern), enumerated completely; " +
 			"(b) a fixed grid of IP-literal spellings x IP SAN sets x modes, enumerated completely; " +
 			"(c) random names over {a b A B 1 . * [ ] : 0x80 e-acute E-acute %} of length 0..12 with hosts derived by near-miss edits; " +
 			"non-trivial = reference accepts, or host is an IP literal with IP SANs present, or host and some candidate name have the same number of labels; distinct by (names, host); " +
